@@ -777,6 +777,12 @@ def declare(d, ocp=None, stage=None, solver=True, method=True, with_cons=True, w
     r.pt = pt
     r.cons_expr = []
     if with_cons:
+        if d.get("cleared"):
+            # a draft constraint set, dropped again through the public clear_constraints() before the final one is declared
+            x_first = s[state_shapes(d)[0][0]]
+            st.subject_to(x_first <= 5)
+            st.subject_to(st.at_tf(x_first) >= -4)
+            st.clear_constraints()
         for c in d["cons"]:
             rel = CONS[c["c"]](CA, pt, d)
             e = apply_rel(rel)
